@@ -35,9 +35,12 @@ type Behaviour struct {
 	IgnoreCancel  bool   `json:"ignore_cancel"` // a hanging step that does not react to the cancel signal
 	// the deployment does not watch its context: it takes DeployDelayMs and then succeeds (or fails as scripted) even when the
 	// step was closed or stopped meanwhile, as a deployer that pulls an image or waits for a scheduler would
-	DeployIgnoresCtx bool           `json:"deploy_ignores_ctx"`
-	ProbeCloseFail   bool           `json:"probe_close_fail"` // while the schema is probed, the write of the ATP "client done" message fails
-	Data             map[string]any `json:"data"`             // overrides of the produced output fields
+	DeployIgnoresCtx bool `json:"deploy_ignores_ctx"`
+	ProbeCloseFail   bool `json:"probe_close_fail"` // while the schema is probed, the write of the ATP "client done" message fails
+	// a RUN-time deployment (not a schema probe) whose Close reports an error after it has done its work (a container that
+	// was killed but could not be removed): everything is released, the caller only gets the error
+	CloseFail bool           `json:"close_fail,omitempty"`
+	Data      map[string]any `json:"data"` // overrides of the produced output fields
 }
 
 // LogEntry is one observation of the plugin side.
@@ -300,6 +303,7 @@ type sdPlugin struct {
 	src           string
 	script        *Script
 	once          sync.Once
+	closeFail     bool
 }
 
 func (p *sdPlugin) Read(b []byte) (int, error) { return p.reader.Read(b) }
@@ -321,6 +325,11 @@ func (p *sdPlugin) Close() error {
 		}
 		p.wg.Wait()
 		atomic.AddInt64(&p.script.deployed, -1)
+		if p.closeFail {
+			p.script.add("close", p.src, "", "close-error", nil)
+			err = fmt.Errorf("scripted: the container of %s was stopped but could not be removed", p.src)
+			return
+		}
 		p.script.add("close", p.src, "", "", nil)
 	})
 	return err
@@ -375,6 +384,7 @@ func (c *sdConnector) Deploy(ctx context.Context, image string) (deployer.Plugin
 		}
 	}
 	pl := &sdPlugin{reader: stdoutReader, writer: stdinWriter, cancel: cancel, wg: wg, src: image, script: s}
+	pl.closeFail = b.CloseFail && !probing
 	if probing && b.ProbeCloseFail {
 		pl.failWriteFrom = 2 // the first write starts the session, the second is the "client done" message
 	}
